@@ -201,7 +201,10 @@ func (d *disconnectHandler) handleGracePeriodExpired() {
 	defer d.mu.Unlock()
 
 	if d.election.connectionMonitor != nil {
-		if d.election.connectionMonitor.Status() != ConnectionStatusDisconnected {
+		// A connection that was closed in the meantime is as unusable as a
+		// disconnected one (and will not come back): only a reconnect calls
+		// the demotion off.
+		if st := d.election.connectionMonitor.Status(); st != ConnectionStatusDisconnected && st != ConnectionStatusClosed {
 			// Reconnected, don't demote
 			log := d.election.getLogger()
 			log.Info("connection_reconnected_before_grace_period",
